@@ -12,22 +12,23 @@ FEAS_TIMEOUT_MS = 1000
 stats = {'z3_queries': 0, 'z3_ms': 0.0, 'cvc5_queries': 0, 'cvc5_ms': 0.0, 'feas_queries': 0}
 
 
-_hq_cache = {}
-
-
-def has_quantifier(e):
+def has_quantifier(e, memo=None):
+    """Does the formula contain a quantifier?  (No global cache: z3 AST ids are reused after
+    garbage collection.)"""
+    if memo is None:
+        memo = {}
     k = e.get_id()
-    if k in _hq_cache:
-        return _hq_cache[k]
+    if k in memo:
+        return memo[k]
     r = False
     if z3.is_quantifier(e):
         r = True
     else:
         for c in e.children():
-            if has_quantifier(c):
+            if has_quantifier(c, memo):
                 r = True
                 break
-    _hq_cache[k] = r
+    memo[k] = r
     return r
 
 
